@@ -64,6 +64,11 @@ impl SwiftField for Field50NoOption {
                     message: format!("Field 50 (No Option) line {} exceeds 35 characters", i + 1),
                 });
             }
+            if line.is_empty() {
+                return Err(ParseError::InvalidFormat {
+                    message: format!("Field 50 (No Option) line {} is empty", i + 1),
+                });
+            }
             parse_swift_chars(line, &format!("Field 50 (No Option) line {}", i + 1))?;
         }
 
@@ -341,9 +346,9 @@ impl SwiftField for Field50K {
         // Check if first line is account (with leading slash in MT format)
         if lines[0].starts_with('/') {
             let acc = &lines[0][1..];
-            if acc.len() > 34 {
+            if acc.is_empty() || acc.len() > 34 {
                 return Err(ParseError::InvalidFormat {
-                    message: "Field 50K account exceeds 34 characters".to_string(),
+                    message: "Field 50K account must be 1-34 characters".to_string(),
                 });
             }
             parse_swift_chars(acc, "Field 50K account")?;
@@ -360,6 +365,11 @@ impl SwiftField for Field50K {
                         "Field 50K line {} exceeds 35 characters",
                         i - start_index + 1
                     ),
+                });
+            }
+            if line.is_empty() {
+                return Err(ParseError::InvalidFormat {
+                    message: format!("Field 50K line {} is empty", i - start_index + 1),
                 });
             }
             parse_swift_chars(line, &format!("Field 50K line {}", i - start_index + 1))?;
@@ -568,6 +578,11 @@ impl SwiftField for Field50H {
             if line.len() > 35 {
                 return Err(ParseError::InvalidFormat {
                     message: format!("Field 50H line {} exceeds 35 characters", i),
+                });
+            }
+            if line.is_empty() {
+                return Err(ParseError::InvalidFormat {
+                    message: format!("Field 50H line {} is empty", i),
                 });
             }
             parse_swift_chars(line, &format!("Field 50H line {}", i))?;
